@@ -225,13 +225,13 @@ fn c05_cm3_accuracy() {
 }
 
 // macro average over the classes of the one-vs-all precision TP_i / (TP_i + FP_i)
-// @unit class=bounded tier=thorough mem=heavy bound="3x3,cells 0..3" fns=linfa::metrics_classification::ConfusionMatrix::precision
+// @unit class=bounded tier=thorough mem=heavy bound="3x3,cells 0..1" fns=linfa::metrics_classification::ConfusionMatrix::precision
 #[kani::proof]
 #[kani::unwind(11)]
 #[kani::solver(kissat)]
 #[kani::stub(alloc::fmt::format, fmt_stub)]
 fn c05_cm3_precision_macro_textbook() {
-    let c = cells::<3>(3);
+    let c = cells::<3>(1);
     let cm = cm_of(&c);
     let mut q = [0f32; 3];
     for i in 0..3 { let (tp, fp, _fn, _tn) = ova(&c, i); q[i] = tp as f32 / (tp + fp) as f32; }
@@ -240,13 +240,13 @@ fn c05_cm3_precision_macro_textbook() {
 }
 
 // macro average over the classes of the one-vs-all recall TP_i / (TP_i + FN_i)
-// @unit class=bounded tier=thorough mem=heavy bound="3x3,cells 0..3" fns=linfa::metrics_classification::ConfusionMatrix::recall
+// @unit class=bounded tier=thorough mem=heavy bound="3x3,cells 0..1" fns=linfa::metrics_classification::ConfusionMatrix::recall
 #[kani::proof]
 #[kani::unwind(11)]
 #[kani::solver(kissat)]
 #[kani::stub(alloc::fmt::format, fmt_stub)]
 fn c05_cm3_recall_macro_textbook() {
-    let c = cells::<3>(3);
+    let c = cells::<3>(1);
     let cm = cm_of(&c);
     let mut q = [0f32; 3];
     for i in 0..3 { let (tp, _fp, fnn, _tn) = ova(&c, i); q[i] = tp as f32 / (tp + fnn) as f32; }
